@@ -153,7 +153,7 @@ pub fn cohort_vcf(seed: u64, nsamples: usize, nrecs: usize, miss: u64, multi_pct
             };
             gt.insert(c.clone(), g);
         }
-        let rec = gen::Rec { contig: if r < nrecs / 2 { "chr1".into() } else { "chr2".into() }, pos: (r + 1) as u64, bad: false, gt };
+        let rec = gen::Rec { contig: if r < nrecs / 2 { "chr1".into() } else { "chr2".into() }, pos: (r + 1) as u64, bad: false, nogt: false, gt };
         text.push_str(&gen::vcf_record(&cols, &rec, r, false));
     }
     (cols, text)
@@ -183,7 +183,7 @@ fn cohort(case: &Value, ctx: &Ctx) -> Outcome {
             };
             gt.insert(c.clone(), g);
         }
-        let rec = gen::Rec { contig: if r < nrecs / 2 { "chr1".into() } else { "chr2".into() }, pos: (r + 1) as u64, bad: false, gt };
+        let rec = gen::Rec { contig: if r < nrecs / 2 { "chr1".into() } else { "chr2".into() }, pos: (r + 1) as u64, bad: false, nogt: false, gt };
         text.push_str(&gen::vcf_record(&cols, &rec, r, false));
         recs.push(rec);
     }
